@@ -691,6 +691,172 @@ def rule_locate(ctx, res):
     res.require_min('R-C12-locate', 3)
 
 
+def pure_aliases(fnode, base):
+    """Names that can only ever hold the value of `base` itself: bound by
+    plain aliasing, membership of a list/tuple of aliases, or iteration over
+    such a collection.  A name with any other binding is not pure."""
+    bindings = {}
+
+    def bind(name, kind, value):
+        bindings.setdefault(name, []).append((kind, value))
+    for n in walk_own(fnode):
+        if isinstance(n, ast.Assign):
+            for t in n.targets:
+                for x in walk_own(t):
+                    if isinstance(x, ast.Name):
+                        bind(x.id, 'val' if x is t else 'opaque', n.value)
+        elif isinstance(n, (ast.AugAssign, ast.AnnAssign)):
+            if isinstance(n.target, ast.Name):
+                bind(n.target.id, 'opaque', None)
+        elif isinstance(n, ast.NamedExpr):
+            bind(n.target.id, 'val', n.value)
+        elif isinstance(n, (ast.For, ast.comprehension)):
+            for x in walk_own(n.target):
+                if isinstance(x, ast.Name):
+                    bind(x.id, 'elem' if x is n.target else 'opaque', n.iter)
+        elif isinstance(n, ast.With):
+            for it in n.items:
+                if it.optional_vars is not None:
+                    for x in walk_own(it.optional_vars):
+                        if isinstance(x, ast.Name):
+                            bind(x.id, 'opaque', None)
+        elif isinstance(n, ast.Call) and isinstance(n.func, ast.Attribute) \
+                and isinstance(n.func.value, ast.Name) and \
+                n.func.attr in ('append', 'insert', 'extend', 'add'):
+            a = n.args[-1] if n.args else None
+            bind(n.func.value.id,
+                 'coll-ext' if n.func.attr == 'extend' else 'coll-add', a)
+    pure = {base}
+    colls = set()
+    changed = True
+
+    def is_pure(e):
+        return isinstance(e, ast.Name) and e.id in pure
+
+    def is_coll(e):
+        if isinstance(e, (ast.List, ast.Tuple, ast.Set)):
+            return all(is_pure(x) for x in e.elts)
+        return isinstance(e, ast.Name) and e.id in colls
+    while changed:
+        changed = False
+        for name, bs in bindings.items():
+            if name not in pure and all(
+                    (k == 'val' and is_pure(v)) or (k == 'elem' and is_coll(v))
+                    for (k, v) in bs):
+                pure.add(name)
+                changed = True
+            if name not in colls and all(
+                    (k == 'val' and is_coll(v)) or
+                    (k == 'coll-add' and v is not None and is_pure(v)) or
+                    (k == 'coll-ext' and v is not None and is_coll(v))
+                    for (k, v) in bs) and any(k == 'val' for (k, _v) in bs):
+                colls.add(name)
+                changed = True
+    return pure
+
+
+def rule_verbatim(ctx, res):
+    """The string the filter validated is the string substituted for `?`."""
+    model = ctx.model
+    qual = 'pico8.build.build:_locate_require_file'
+    f = model.func(qual)
+    p_req = f.params()[0]
+    tainted = taint_closure(f.node, {p_req})
+    pure = pure_aliases(f.node, p_req)
+    n_sub = 0
+    for n in model.own_nodes(f.node):
+        # every use of a value derived from the require string
+        if isinstance(n, ast.Call) and isinstance(n.func, ast.Attribute) and \
+                n.func.attr == 'replace' and len(n.args) >= 2 and \
+                isinstance(n.args[0], ast.Constant) and \
+                n.args[0].value in ('?', b'?'):
+            n_sub += 1
+            a = n.args[1]
+            ok = isinstance(a, ast.Name) and a.id in pure
+            res.check(ok, 'R-C12-verbatim', qual,
+                      'value substituted for "?"',
+                      '{} is the require string itself'.format(unparse(a, 30)),
+                      'the value substituted for "?" ({}) is not the require '
+                      'string itself but is computed from it: the "./" and '
+                      'leading-"/" filter validated a different string, so a '
+                      'transformed name can climb out of the load path or '
+                      'become absolute'.format(unparse(a, 40)),
+                      f.module.loc(n))
+    if n_sub == 0:
+        res.vanished('R-C12-verbatim', qual, 'substitution',
+                     'no <entry>.replace("?", name) found')
+    # derived (non-alias) values of the require string must not exist at all
+    derived = sorted(nm for nm in tainted - pure
+                     if _derived_directly(f.node, nm, pure))
+    res.tables['locate_require_aliases'] = sorted(pure)
+    # the caller hands over a direct view of the filtered string
+    ev = model.func('pico8.build.build:_evaluate_require')
+    for n in model.own_nodes(ev.node):
+        if isinstance(n, ast.Call):
+            kind, targets = model.resolve_call(ev, n)
+            if any(isinstance(t, FuncInfo) and t.qual == qual
+                   for t in targets):
+                a = dict(_bind(f, n)).get(p_req)
+                views = _views_of_walker_string(model, ev)
+                ok = isinstance(a, ast.Name) and a.id in views
+                res.check(ok, 'R-C12-verbatim', ev.qual,
+                          'require-string argument',
+                          '{} is a direct view of the filtered string'.format(
+                              unparse(a, 30) if a is not None else '?'),
+                          'the string handed to _locate_require_file ({}) is '
+                          'not the filtered string or its decode()'.format(
+                              unparse(a, 40) if a is not None else '?'),
+                          ev.module.loc(n))
+    res.require_min('R-C12-verbatim', 2)
+
+
+def _derived_directly(fnode, name, pure):
+    for (_s, v) in assignments_to(fnode, name):
+        if v is not None and _uses(v, pure):
+            return True
+    return False
+
+
+def _views_of_walker_string(model, f):
+    walker_names = set()
+    for n in walk_own(f.node):
+        if isinstance(n, ast.Assign) and isinstance(n.value, ast.Call):
+            r = model.resolve_expr(f.module, n.value.func)
+            if r and r[0] == 'class' and any(
+                    c.name == 'BaseASTWalker' for c in model.mro(r[1])):
+                for t in n.targets:
+                    if isinstance(t, ast.Name):
+                        walker_names.add(t.id)
+    seeds = set()
+    for n in walk_own(f.node):
+        if isinstance(n, ast.For) and isinstance(n.iter, ast.Call) and \
+                isinstance(n.iter.func, ast.Attribute) and \
+                isinstance(n.iter.func.value, ast.Name) and \
+                n.iter.func.value.id in walker_names:
+            tgt = n.target
+            if isinstance(tgt, (ast.Tuple, ast.List)) and tgt.elts and \
+                    isinstance(tgt.elts[0], ast.Name):
+                seeds.add(tgt.elts[0].id)
+            elif isinstance(tgt, ast.Name):
+                seeds.add(tgt.id)
+    views = set(seeds)
+    for n in walk_own(f.node):
+        if isinstance(n, ast.Assign) and isinstance(n.value, ast.Call) and \
+                len(n.targets) == 1 and isinstance(n.targets[0], ast.Name):
+            c = n.value
+            if isinstance(c.func, ast.Attribute) and c.func.attr == 'decode' \
+                    and isinstance(c.func.value, ast.Name) and \
+                    c.func.value.id in seeds:
+                views.add(n.targets[0].id)
+            if isinstance(c.func, ast.Name) and c.func.id == 'str' and \
+                    c.args and isinstance(c.args[0], ast.Name) and \
+                    c.args[0].id in seeds:
+                views.add(n.targets[0].id)
+    # a view must have exactly one binding
+    return {v for v in views if v in seeds or
+            len(assignments_to(f.node, v)) == 1}
+
+
 def rule_other_opens(ctx, res):
     """Provenance of every other open()/probe in the package (report)."""
     model = ctx.model
@@ -716,4 +882,5 @@ def run(ctx, res):
     rule_component(ctx, res)
     rule_require(ctx, res)
     rule_locate(ctx, res)
+    rule_verbatim(ctx, res)
     rule_other_opens(ctx, res)
